@@ -216,16 +216,25 @@ impl Output {
                 self.create_file_non_lazily(file_size)?
             }
         };
+        #[cfg(wild_verif)]
+        crate::verif::fault_point("pre_write")?;
         write_fn(&mut sized_output, layout)?;
+        #[cfg(wild_verif)]
+        crate::verif::fault_point("mid_write")?;
         sized_output.flush()?;
         sized_output.trace.close()?;
 
+        #[cfg(wild_verif)]
+        crate::verif::fault_point("flushed")?;
         // While we have the output file mmapped with write permission, the file will be locked and
         // unusable, so we can't really say that we've finished writing it until we've unmapped it.
         {
             timing_phase!("Unmap output file");
             drop(sized_output);
         }
+
+        #[cfg(wild_verif)]
+        crate::verif::fault_point("unmapped")?;
 
         Ok(())
     }
